@@ -55,6 +55,9 @@ def main():
                 continue
             obj = getattr(mod, name)
             md['names'].append(name)
+            if inspect.isclass(obj):
+                md.setdefault('class_bindings', {})[name] = '%s.%s' % (obj.__module__.split('.')[-1],
+                                                                        obj.__name__)
             if inspect.isclass(obj) and obj.__module__ == mod.__name__:
                 cd = {'bases': ['%s.%s' % (b.__module__.split('.')[-1], b.__name__) for b in obj.__bases__],
                       'kind': 'struct' if issubclass(obj, bb.Struct) else
